@@ -277,77 +277,6 @@ func checkC18(p *ana.Prog, r *ana.Result) {
 	c18Drift(p, r)
 }
 
-func c18Timeval(p *ana.Prog, r *ana.Result) {
-	fn := mustFunc(p, r, "base/unixutil", "TimevalFromNsec")
-	if fn == nil {
-		return
-	}
-	fname := ana.FuncName(fn)
-	envs, err := ivAnalyze(fn)
-	if err != nil {
-		r.Violate("C18.timeval", fname, "undecided", p.Pos(fn.Pos()), "UNDECIDED: "+err.Error())
-		return
-	}
-	// the returned struct: load of a local alloc with field stores Sec, Usec
-	for ret, env := range envs {
-		ld, ok := ret.Results[0].(*ssa.UnOp)
-		if !ok {
-			r.Violate("C18.timeval", fname, "result-form", posOf(p, ret), "UNDECIDED: result is not a composite literal")
-			continue
-		}
-		m := structLit(ld)
-		us, sec := m["Usec"], m["Sec"]
-		if us == nil || sec == nil {
-			r.Violate("C18.timeval", fname, "result-fields", posOf(p, ret), "UNDECIDED: Sec/Usec not assigned")
-			continue
-		}
-		v, ok := ivEval(us, env)
-		if !ok {
-			r.Violate("C18.timeval", fname, "usec-range", posOf(p, ret), "UNDECIDED: the sub-second part is computed by operations outside the interval domain")
-			continue
-		}
-		if v.lo.Sign() >= 0 && v.hi.Cmp(big.NewInt(999999999)) <= 0 {
-			r.Ok("C18.timeval", fname, "usec-range", posOf(p, ret), "for every int64 input the sub-second part lies in "+v.String()+" (within [0, 10^9))")
-		} else {
-			r.Violate("C18.timeval", fname, "usec-range", posOf(p, ret), "the sub-second part can lie in "+v.String()+", outside [0, 10^9): the kernel rejects such a timeval")
-		}
-		// pairing: Sec phi and Usec phi in the same block, adjusted on the same edge
-		sp, ok1 := sec.(*ssa.Phi)
-		up, ok2 := us.(*ssa.Phi)
-		paired := false
-		if ok1 && ok2 && sp.Block() == up.Block() && len(sp.Edges) == 2 {
-			for i := 0; i < 2; i++ {
-				sb, isS := sp.Edges[i].(*ssa.BinOp)
-				ub, isU := up.Edges[i].(*ssa.BinOp)
-				if isS && isU && sb.Op == token.SUB && ub.Op == token.ADD {
-					k1, _ := ana.ConstInt(sb.Y)
-					k2, _ := ana.ConstInt(ub.Y)
-					if k1 == 1 && k2 == 1e9 && sb.X == sp.Edges[1-i] && ub.X == up.Edges[1-i] {
-						// base values: quotient and remainder of the same input by 10^9
-						q, okq := sb.X.(*ssa.BinOp)
-						m, okm := ub.X.(*ssa.BinOp)
-						if okq && okm && q.Op == token.QUO && m.Op == token.REM && q.X == m.X {
-							kq, _ := ana.ConstInt(q.Y)
-							km, _ := ana.ConstInt(m.Y)
-							if kq == 1e9 && km == 1e9 {
-								paired = true
-							}
-						}
-					}
-				}
-			}
-		}
-		if paired {
-			r.Ok("C18.timeval", fname, "paired-adjustment", posOf(p, ret), "Sec = n/10^9, Usec = n%10^9, and Sec-1 / Usec+10^9 are applied together on one edge")
-		} else {
-			r.Violate("C18.timeval", fname, "paired-adjustment", posOf(p, ret), "seconds and sub-second part are not the quotient/remainder by 10^9 with the -1 / +10^9 fix-up applied together (seconds*10^9 + sub-second would not equal the input)")
-		}
-	}
-	if len(envs) == 0 {
-		r.Violate("C18.timeval", fname, "no-return", p.Pos(fn.Pos()), "no return found")
-	}
-}
-
 // subSym: canonical symbol for a time difference a.Sub(b): "(a-b)".
 func durLin(v ssa.Value, d int) (map[string]int64, bool) {
 	if d > 8 {
